@@ -37,6 +37,8 @@ type ChainSpec struct {
 	AtRest bool
 	// EmptyDataHash is the fixed data hash of empty blocks.
 	EmptyDataHash []byte
+	// Payload is the chain's signature payload provider (nil: the raw header bytes).
+	Payload types.SignaturePayloadProvider
 }
 
 // Problem is a failed oracle clause.
@@ -122,7 +124,11 @@ func CheckChain(ctx context.Context, sp ChainSpec) ([]BlockView, *Problem) {
 		if !bytes.Equal(types.KeyAddress(sp.PubKey), sp.Genesis.ProposerAddress) || !bytes.Equal(hdr.ProposerAddress, sp.Genesis.ProposerAddress) {
 			return views, prob("chain/proposer", "block %d proposer address %x is not genesis proposer %x", h, hdr.ProposerAddress, sp.Genesis.ProposerAddress)
 		}
-		payload, err := hdr.Header.MarshalBinary()
+		provider := sp.Payload
+		if provider == nil {
+			provider = types.DefaultSignaturePayloadProvider
+		}
+		payload, err := provider(&hdr.Header)
 		if err != nil {
 			return views, prob("chain/marshal", "block %d header does not marshal: %v", h, err)
 		}
